@@ -2085,6 +2085,31 @@ func checkBlocks(c blockCase) []vf.Finding {
 			fs = append(fs, vf.F("EchoRequest.Marshal", "byte-count-differs-from-ms-cifs", "%d data bytes: count bytes %x, MS-CIFS little-endian %02x%02x, %d bytes follow", c.Bytes, enc[at:min(at+2, len(enc))], byte(c.Bytes), byte(c.Bytes>>8), len(enc)-at-2))
 		}
 	}
+	// and the other way round at message level: a reference-encoded SMB_COM_ECHO request (header, one parameter
+	// word, LE16 byte count, that many bytes) is decoded by Message.Unmarshal, which must hand the command its whole
+	// data block
+	hdr := header.NewHeader()
+	hdr.Command = codes.CommandCode(0x2B)
+	if hb, err := hdr.Marshal(); err == nil && len(hb) == 32 {
+		wire := append(append(append([]byte{}, hb...), 0x01, 0x07, 0x00, byte(c.Bytes), byte(c.Bytes>>8)), content...)
+		m := message.NewMessage()
+		var derr error
+		func() {
+			defer func() {
+				if r := recover(); r != nil {
+					derr = fmt.Errorf("panic: %v", r)
+				}
+			}()
+			derr = m.Unmarshal(wire[:len(wire):len(wire)])
+		}()
+		if derr != nil {
+			fs = append(fs, vf.F("Message.Unmarshal", "reference-message-rejected", "ECHO request with a data block of %d bytes (count bytes %02x %02x): %v", c.Bytes, byte(c.Bytes), byte(c.Bytes>>8), derr))
+		} else if m.Command != nil {
+			if dv := reflect.ValueOf(m.Command).Elem().FieldByName("Data"); dv.IsValid() && dv.Kind() == reflect.Slice && dv.Len() != c.Bytes {
+				fs = append(fs, vf.F("Message.Unmarshal", "reference-data-block-misread", "ECHO request with a data block of %d bytes decoded with %d data bytes", c.Bytes, dv.Len()))
+			}
+		}
+	}
 	return fs
 }
 
